@@ -11,7 +11,19 @@ func DecodeSecret(secret string) ([]byte, error) {
 		secret = secret + strings.Repeat("=", 8-n)
 	}
 
-	secret = strings.ToUpper(secret)
+	secret = upperASCII(secret)
 
 	return base32.StdEncoding.DecodeString(secret)
+}
+
+// upperASCII upper-cases the ASCII letters a-z only. strings.ToUpper would also fold
+// non-ASCII letters onto the base32 alphabet ('ſ' U+017F -> 'S', 'ı' U+0131 -> 'I'),
+// so that text outside the alphabet would be accepted as a secret.
+func upperASCII(s string) string {
+	return strings.Map(func(r rune) rune {
+		if 'a' <= r && r <= 'z' {
+			return r - ('a' - 'A')
+		}
+		return r
+	}, s)
 }
